@@ -20,12 +20,20 @@ def marker_of(wrap):
     return None
 
 
-def range_path(rng):
+def range_path(rng, returns_option=lambda name: False):
     """decompose a range term into (scanner call term, claim path) or None"""
     path = []
     t = rng
     for _ in range(12):
         if t[0] == 'payload':
+            path.append('payload')
+            t = t[1]
+        elif t[0] == 'field' and t[2] == 0 and t[1][0] == 'call' and t[1][1].endswith('Try>::branch') and t[1][2]:
+            # `scanner(..)?`: the Continue payload is the payload of Some
+            path.append('payload')
+            t = t[1][2][0]
+        elif t[0] == 'field' and t[2] == 0 and t[1][0] == 'call' and returns_option(t[1][1]):
+            # `let Some(r) = scanner(..) else {..}` / `match`: field 0 of the Some variant
             path.append('payload')
             t = t[1]
         elif t[0] == 'call' and t[1].endswith('::ok') and t[2]:
@@ -57,11 +65,17 @@ def extract(P, ctx):
             if node[0] != 'call' or not node[1].endswith('::new_unchecked') or not node[2]:
                 continue
             a0 = node[2][0]
+            if a0[0] == 'phi':
+                # `new_unchecked(if c { b"lit" } else { &bytes[..end] })`: the slicing alternative is the site
+                alts = [x for x in a0[1] if x[0] == 'call' and 'Index<' in x[1] and x[1].endswith('::index')]
+                if len(alts) != 1:
+                    continue
+                a0 = alts[0]
             if not (a0[0] == 'call' and 'Index<' in a0[1] and a0[1].endswith('::index')):
                 continue
             base, rng = a0[2][0], a0[2][1]
             found += 1
-            rp = range_path(rng)
+            rp = range_path(rng, lambda nm: (P.body(nm) or {}).get('ret', '').startswith('std::option::Option'))
             if rp is None or not rp[0][1].startswith('common::'):
                 # computed range (directory/parent): not a scanner obligation
                 continue
